@@ -84,4 +84,28 @@ CHECKS = {
               "constructors, _calculate_tradeoff_points (group lacking a label), _get_labels_for_confusion_matrix; validator dominance in 9 entry points." + _B + "defect injection at "
               "every entry point x argument x container."),
 }
+
+# contracts added after the first round (appended to the texts above)
+_MORE = {
+    "C01": " Also: vector-valued rows (sample axis kept for n = 1), DisaggregatedResult.create/_apply_functions call sites, provenance of the MetricFrame entry points.",
+    "C02": " Also: DisaggregatedResult.apply_grouping/difference/ratio for any number of groups (real and integer cells, one generic control-feature stratum) with a bounded native "
+           "search on the real class after a refuted/undecided obligation.",
+    "C03": " Also: the generated-metrics table, the four rates and their label helper, scalar shapes.",
+    "C04": " Also: the equalized-odds curve loop (caller's flip, default FPR/TPR metrics), state of an earlier fit is rebuilt, provenance type-state.",
+    "C05": " Also: the native search checks completeness (a '>' rule between any two different scores).",
+    "C06": " Also: the five load_data event constructions incl. control strata, gamma for (n,1) predictor output, SquareLoss/AbsoluteLoss.eval, ConditionalLossMoment.",
+    "C07": " Also: ErrorRate / ConditionalLossMoment signed_weights (labels vs positions of the multiplier Series).",
+    "C08": " Also: any requested nu >= 0; bounded native search (exact learner, ~650 runs) after a refuted/undecided obligation.",
+    "C09": " Also: every grid point trains its own deep copy; _GridGenerator.accumulate_integer_grid (modular recursion contract); native searches.",
+    "C10": " Also: ExponentiatedGradient._pmf_predict (zero test and mixture by label), seeded generator, flip wiring of the equalized-odds curves, no '<' rules without flip.",
+    "C11": " Also: MetricFrame weight plumbing (_construct_annotated_metric_function, AnnotatedMetricFunction.__call__), the named metrics, the rates.",
+    "C15": " Also: refit rebuilds the column lookup from this call's X; _split_X (label S, widths <= 3).",
+    "C16": " Also (P): gradient flow of the whole torch train_step (autograd buffers as ghost type-state).",
+    "C17": " Also: bounded native schedule search after a refuted/undecided obligation.",
+    "C18": " Also: the bootstrap part of MetricFrame.__init__ (the caller's quantile list is used unchanged), _calc_dataframe_quantiles/_calc_series_quantiles (NaN-ignoring quantiles, entry i = quantile i).",
+    "C19": " Also: aliases of constructor parameters (F2), BackendEngine.evaluate of both engines (one forward pass in evaluation mode).",
+    "C20": " Also: bootstrap arguments of MetricFrame; a cast of the labels is not the identity.",
+}
+for _k, _v in _MORE.items():
+    CHECKS[_k]["text"] = CHECKS[_k]["text"] + _v
 NOT_APPLICABLE = {}
